@@ -14,3 +14,79 @@ ASSUMPTIONS = cm.ASSUME_CORE + ['multiplicity of #k substitution (each occurrenc
 LEVEL_TEXT = 'Proves: h_newcommand and parse_def_macro register a macro that satisfies MacInv (argument code over {*,A,O}, every #k of the body within 1..n -- established by the checking loop of h_newcommand, proved as loop body contract), and leave no text (result [] / one Action token); expand_arguments collects exactly one argument list per code letter, mandatory ones non-empty, defaults as stamped fresh copies; generate_replacements indexes arguments[k-1] safely and emits only argument tokens or stamped fresh copies of body tokens inside the hull of call position and arguments; definition texts (--defs, \\\\LTinput) go through the same parser_work and contribute only language tokens and no flows. expand_macro expands a name that is declared at the call exactly once, with the current entry of the_macros, and never expands an undeclared one (postcondition over the ghost history of expand_arguments calls) -- so a use before the definition is unknown and a redefinition affects later uses only. NOT decided: equality of three complete runs up to a shift, program order of definitions.'
 LEVEL_NOTE = 'Relational cross-run statement not expressible as a contract of one call.'
 TECHNIQUE = 'contract-based deductive verification: per-function postconditions and loop invariants over the real AST, z3; end-to-end sentence of the property not decided'
+
+
+def definitions_in_order_bounded(seed):
+    """"the same lines in the document, in a file read by \\LTinput or given
+    with --defs give the same text": documents of <= 4 pieces out of
+    {use, definitions block A, redefinitions block B, use with option},
+    each definitions block once written in place and once read with
+    \\LTinput from a file (scratch directory, removed) -- the texts must be
+    equal, for every sequence; block A given with --defs equals block A in
+    front of the document"""
+    import contextlib
+    import io
+    import itertools
+    import os
+    import shutil
+    import tempfile
+    from pyvc import replay as _r
+    t2t = _r.real_module('yalafi.tex2txt')
+    blocks = {
+        'A': '\\newcommand{\\name}{Alice}\n'
+             '\\newcommand{\\greet}[2][Hello]{#1, #2!}\n',
+        'B': '\\renewcommand{\\name}{Bob}\n'
+             '\\renewcommand{\\greet}[2][Bye]{#2: #1.}\n'}
+    uses = {'U': 'One \\greet{\\name} two.\n',
+            'V': 'Three \\greet[Hi]{\\name} four.\n'}
+    tmp = tempfile.mkdtemp(prefix='c09_defs_')
+    n, fails = 0, []
+    try:
+        files = {}
+        for k, txt in blocks.items():
+            files[k] = os.path.join(tmp, 'defs%s.tex' % k)
+            with open(files[k], 'w') as f:
+                f.write(txt)
+
+        def run(src, **kw):
+            with contextlib.redirect_stderr(io.StringIO()):
+                return t2t.tex2txt(src, t2t.Options(**kw))[0]
+        kinds = ['U', 'A', 'B', 'V']
+        for ln in (1, 2, 3, 4):
+            for seq in itertools.product(kinds, repeat=ln):
+                if not any(k in uses for k in seq):
+                    continue
+                inline = ''.join(blocks.get(k) or uses[k] for k in seq)
+                viafile = ''.join(
+                    ('\\LTinput{%s}\n' % files[k]) if k in blocks
+                    else uses[k] for k in seq)
+                n += 1
+                try:
+                    a, b = run(inline), run(viafile)
+                except BaseException as e:      # noqa
+                    fails.append({'document': viafile,
+                                  'why': 'exception %r' % (e,)})
+                    continue
+                if a.split() != b.split():
+                    fails.append({'document': viafile, 'text': b,
+                                  'with the lines in place': a})
+                    if len(fails) >= 3:
+                        break
+            if len(fails) >= 3:
+                break
+        for u in uses.values():
+            n += 1
+            a = run(blocks['A'] + u)
+            b = run(u, defs=blocks['A'])
+            if a.split() != b.split():
+                fails.append({'document': u, 'defs': blocks['A'],
+                              'text': b, 'with the lines in place': a})
+    finally:
+        shutil.rmtree(tmp, ignore_errors=True)
+    return {'name': 'definitions-in-place-by-LTinput-and-by-defs-agree',
+            'bounded': True,
+            'bound': 'all sequences of <= 4 pieces over 4 piece kinds',
+            'evaluations': n, 'failures': fails}
+
+
+QUICK_BOUNDED = [definitions_in_order_bounded]
